@@ -344,6 +344,10 @@ func WorkerMain(t *testing.T, opt Options, fn EngineFunc) {
 		if mode == "determinism" {
 			res.Digests[strconv.FormatUint(runSeed, 10)] = r.digestHex()
 		}
+		if d := os.Getenv("VERIF_DUMP_SEED"); d != "" && d == strconv.FormatUint(runSeed, 10) {
+			// debugging aid: the event log of one run
+			os.WriteFile(os.Getenv("VERIF_DUMP_TO"), []byte(strings.Join(r.Lines(), "\n")+"\n"), 0o644)
+		}
 		viol := r.viol
 		if viol == nil && o.sutPanic != "" {
 			viol = &Violation{Property: prop, Oracle: "no-panic", Msg: o.sutPanic, EventSeq: r.seq}
